@@ -332,6 +332,7 @@ def run(chk, prog, tier):
     c05.check_insert_after_probe(chk, prog)
     extent_common.check_scan_extent(chk, prog)
     check_fast_subset(chk, prog)
+    check_offsets_monotone(chk, prog)
     check_clear_resets(chk, prog)
 
 
@@ -404,3 +405,37 @@ def check_fast_subset(chk, prog, R=None):
         chk.judge(got == want, R, f"{SWT}::fast_subset:{variant}", f"{variant}: {want}",
                   f"{variant} maps the search result to {got}, expected {want}: rows stamped exactly with the constraint value end up on the wrong side", f.loc)
     chk.floor(R, n, 5, "constraint variants handled by fast_subset")
+
+
+def check_offsets_monotone(chk, prog):
+    R = chk.rule("R-OFFSETS-MONOTONE", "an entry is appended to a table's `offsets` (sort value -> first row) only when the sort value is strictly greater than the last recorded one, "
+                 "or when `offsets` is empty: the binary search over timestamps relies on strictly increasing keys")
+    n = 0
+    for f in prog.lib_fns(["egglog_core_relations"]):
+        root = f.root or f.name
+        if not (root.startswith("egglog_core_relations::table::")):
+            continue
+        for c in f.calls:
+            if c.p != "alloc::vec::Vec::push" or not c.args:
+                continue
+            ra = f.origins(c.args[0])
+            is_off = any((a[0] == "param" and (("offsets" in a[2]) or f.varnames.get(a[1]) == "offsets")) for a in ra)
+            if not is_off:
+                continue
+            n += 1
+            ok = False
+            if root == SWT + "::parallel_rehash":
+                rebuilt = any(x.p == "alloc::vec::Vec::clear" and any(a[0] == "param" and "offsets" in a[2] for a in f.origins(x.args[0])) and f.dominates(x.bb, c.bb) for x in f.calls)
+                chk.judge(rebuilt, R, f"{root}:offsets-rebuilt-from-old", "listed exception: offsets are cleared and rebuilt from the previous (strictly increasing) offsets, one entry per old entry with live rows",
+                          "parallel_rehash pushes onto offsets without clearing them first", c.loc)
+                continue
+            for g in guards(f, c.bb):
+                if g.get("rel") in ("Gt", "Lt"):
+                    ok = True
+                if "variant" in g and variant_is(g, 0):
+                    pa = f.origins(g["place"])
+                    if any(a[0] == "call" and (a[1].endswith("]::last") or a[1].endswith("Option::map")) for a in pa):
+                        ok = True
+            chk.judge(ok, R, f"{root}:offsets-push{'@closure' if f.kind == 'closure' else ''}", "offsets only grows by a strictly larger sort value (or from empty)",
+                      "an offsets entry can be pushed without the strictly-greater test: duplicate or unsorted keys break timestamp-range subsets", c.loc)
+    chk.floor(R, n, 5, "pushes onto offsets")
